@@ -503,7 +503,11 @@ def handle (st : DState) (line : String) : DState × String :=
         let b := toV fb.code
         let removed := (a.zip b).filter (fun p => p.1 != p.2) |>.length
         if Valid.validate a b then (st, s!"ok accepted {removed}")
-        else (st, s!"ok rejected {(Valid.firstBad a b).getD 99999} {removed}")
+        else
+          -- the reason, as far as a diagnostic can tell: accepted when the carry (or carry and N/Z) is taken for dead?
+          let why := if Valid.validateWith (fun r => r == .c) a b then "carry"
+                     else if Valid.validateWith (fun r => r == .c || r == .nz) a b then "flags" else "other"
+          (st, s!"ok rejected {(Valid.firstBad a b).getD 99999} {removed} {why}")
       | _, _ => (st, "nofn")
   -- branch <line tokens>
   | "branch" :: toks =>
